@@ -269,9 +269,12 @@ def run_op(pool, op):
             try:
                 if name == 'simulate':
                     return fp(simulate({'circuit': pool[args[0]]}))
-                sch = create_schematic(pool[args[0]])
                 if name == 'schematic_roundtrip':
+                    # annotation labels are not in the persistable symbol set: the element list alone (the same shared list object)
+                    sch = create_schematic({k: v for k, v in pool[args[0]].items() if k != 'solution'})
                     sch = sdl.deserialize(sdl.serialize(sch, 'json'), 'json')
+                else:
+                    sch = create_schematic(pool[args[0]])
                 c = circuit_translator(sch)
                 texts = [[type(e).__name__, [l.label for l in getattr(e, '_userlabels', [])]] for e in sch.elements
                          if isinstance(e, (elm.VoltageLabel, elm.CurrentLabel, elm.PowerLabel))]
